@@ -50,9 +50,20 @@ def edit_script(p):
     return {'ev': 'Edit', 'op': 'script', 'path': 'build.bfg'}
 
 
-def edit_raise(p):
-    with open(os.path.join(p.src, 'build.bfg'), 'a') as f:
-        f.write("raise RuntimeError('boom')\n")
+# ways in which a script gives up (exit() / exit(0) is the documented early,
+# successful exit and is not one of them)
+HOWS = ["raise RuntimeError('boom')", "exit('fatal: cannot go on')",
+        "import sys; sys.exit(3)", "raise SystemExit('stop')", "1 / 0",
+        "exit(2)", "submodule('no-such-directory')"]
+
+
+def edit_raise(p, how=HOWS[0]):
+    # right after the project() line: a script run only half-way would
+    # describe a different build
+    path = os.path.join(p.src, 'build.bfg')
+    lines = open(path).read().splitlines(True)
+    with open(path, 'w') as f:
+        f.write(''.join(lines[:1]) + how + '\n' + ''.join(lines[1:]))
     return {'ev': 'Edit', 'op': 'raise', 'path': 'build.bfg'}
 
 
@@ -294,16 +305,17 @@ def reconfigure_scenario(arg):
         p.close()
 
 
-def raise_scenario(sc):
+def raise_scenario(arg):
     """the edited script raises: previous build file untouched, visible
     failure; after repairing the script the next attempt is fresh"""
+    sc, how = arg
     name, files, edit, backend = sc
     p = regen.Proj(files, backend=backend)
     try:
         rc, out = p.configure()
         p.tool()
         p.tick()
-        ev = edit_raise(p)
+        ev = edit_raise(p, how)
         before = p.outputs()
         events = [ev, attempt(p, None, before), attempt(p, None, before)]
         p.tick()
@@ -313,7 +325,8 @@ def raise_scenario(sc):
         frc, fresh, aux, fout = p.fresh()
         events.append(attempt(p, fresh, p.outputs()))
         return {'scenario': name + '+raise', 'k': 0, 'mode': 'raise',
-                'point': 'script', 'events': events}
+                'point': 'script:' + how.split('(')[0].strip(),
+                'events': events}
     finally:
         p.close()
 
@@ -363,7 +376,8 @@ def main(argv):
     scs = SCENARIOS[:5] if ck.quick else SCENARIOS
     modes = ['kill', 'enospc']
     results = pmap(lambda sc: run_scenario(sc, modes, ck.quick), scs, jobs=8)
-    raises = pmap(raise_scenario, scs[:2] if ck.quick else scs, jobs=8)
+    raises = pmap(raise_scenario, [(sc, how) for sc in (
+        scs[:1] + scs[3:4] if ck.quick else scs) for how in HOWS], jobs=8)
     reconf = pmap(reconfigure_scenario, [('make', modes)] + (
         [] if ck.quick else [('ninja', modes)]), jobs=2)
     runs = [t for tr, _ in results for t in tr] + raises + \
